@@ -39,9 +39,10 @@ def c10Pairs (e : Sexp) : List (Nat × Nat) :=
     `codes` the code array, `strings` the string table (lists of runes), `setrows` the pairs `(set rune)`
     with `Sets[set].CharIn(rune)`, `lower` the pairs `(rune unicode.ToLower(rune))` that differ, `word` /
     `ecmaword` the word characters among the runes of the text, `attempts` a list of `(pos textstart)`.
-    Answer: `(vm wf potOk typeReport (outcome steps maxtrack maxstack textpos hash (first k tuples) (counts) (arrays…))…)`,
+    Answer: `(vm wf potOk typeReport (stackcap maxHeight stackAlloc0 crawlAlloc0) (outcome steps maxtrack maxstack textpos hash (first k tuples) (counts) (arrays…))…)`,
     one entry per attempt; `typeReport` = 0 when the program has a grouping-stack typing (`StackTyping.typed`), else
-    1 + the opcode of the first instruction at which the typing fails; outcome ∈ match | nomatch | fuel | fault-<kind>; capture arrays after `tidy`, cut to
+    1 + the opcode of the first instruction at which the typing fails; `stackcap`: the largest height of the inferred
+    typing, and the model's initial lengths of `runstack` / `runcrawl` (C13 section 6: the first never changes); outcome ∈ match | nomatch | fuel | fault-<kind>; capture arrays after `tidy`, cut to
     the live entries. -/
 def handleC10 (args : List Sexp) : String :=
   match args with
@@ -82,7 +83,9 @@ def handleC10 (args : List Sexp) : String :=
                     ofInts ((MatchBuilder.arr b c).take (2 * MatchBuilder.cnt b c)))
               else mk "nomatch" (common s.textpos)
         | _ => mk "bad-attempt" []
-      toString (mk "vm" ([ofBool p.wf, ofBool (potOk p), ofNat (StackTyping.typeReport p)] ++ atts.map one))
+      toString (mk "vm" ([ofBool p.wf, ofBool (potOk p), ofNat (StackTyping.typeReport p),
+        mk "stackcap" [ofNat (StackTyping.maxHeight p), ofNat (Capacity.stackAlloc0 p.trackcount), ofNat Capacity.crawlAlloc0]] ++
+        atts.map one))
     | _, _, _, _, _, _, _, _, _, _, _, _, _, _ => "(bad-op)"
   | _ => "(bad-op)"
 
